@@ -33,6 +33,10 @@ PATH_VALUES = {"string": ["abc", "a b-é"]}
 
 def op_cases(tier):
     out = [c for g in ops.shared_item_groups() for c in g]   # first, so that each group stays inside one pack (one document)
+    # request bodies on methods that rarely carry one (bulk delete, search-by-GET): what the caller supplies goes on the wire
+    for m in ("delete", "get"):
+        out.append(ops.op(m, "/bulk", [], {"kind": "json-ref", "required": True}, {"204": "none"}))
+        out.append(ops.op(m, "/bulk/{id}", [P("id", "path", True, "integer")], {"kind": "json-array-ref", "required": False}, {"204": "none"}))
     locs = ["path", "query", "header", "cookie"]
     scalar_kinds = [k for k in ops.PARAM_KINDS if k != "arr-string"]
     if tier == "quick":
